@@ -264,7 +264,8 @@ def reference_fit(case, x, before):
         with np.errstate(all="ignore"), warnings.catch_warnings():
             warnings.simplefilter("ignore")
             res = d.fit(x, *pos, **other, **pins)
-        return dist, [float(v) for v in res]
+        idx = {("floc" if j == n else "fscale" if j == n + 1 else f"f{j}"): j for j in range(n + 2)}
+        return dist, [float(v) for v in res], {idx[k]: float(v) for k, v in pins.items()}
     except Exception:  # noqa: BLE001  (reference not computable: no verdict from this oracle)
         return None
 
@@ -303,6 +304,40 @@ def check_fit(case):
                         f"fixed {[params[p] for p in F]}: {type(e).__name__}: {str(e)[:120]}"))
             return bad, info
     after = inst.parameters
+    # reference: scipy's own fit with exactly the slots pinned that the parameter map (not the code's keyword
+    # translation) assigns to the fixed parameters, same starts as the code used
+    ref = reference_fit(case, x, before)
+    if ref is not None:
+        dist, want, pins = ref
+        d = getattr(sts, dist)
+        base = base_slots(name)
+
+        def slots_of(ps):
+            out = [sentinel.evaluate(e, {("arg", p): float(ps[pn]) for p, pn in enumerate(params)}) for e in base]
+            if len(out) < len(want):  # slots the family does not pass: scipy's defaults loc = 0, scale = 1
+                out += [0.0, 1.0][len(out) - len(want):]
+            return out
+
+        got, start = slots_of(after), slots_of(before)
+        info["reference"] = True
+        for j, v in pins.items():
+            if not rel_close(got[j], v):
+                bad.append((_sig(name + ".fit", "pinned_slot_after_fit", method="mle"),
+                            f"fixed {[params[q] for q in F]}: scipy slot {j} is {got[j]!r} after the fit, the parameter "
+                            f"map puts {v!r} there"))
+        with np.errstate(all="ignore"):
+            nll_code, nll_ref = float(d.nnlf(got, x)), float(d.nnlf(want, x))
+        # the estimate is the one *given* the fixed values: at least as likely as scipy's pinned fit
+        if np.isfinite(nll_ref) and not nll_code <= nll_ref + 1e-6 * max(1.0, abs(nll_ref)):
+            bad.append((_sig(name + ".fit", "estimate_given_fixed", method="mle"),
+                        f"fixed {[params[q] for q in F]}={[farg[q] for q in F]}: negative log-likelihood {nll_code!r} at "
+                        f"the fitted scipy slots {got}, but scipy.stats.{dist}.fit with exactly the mapped slots pinned "
+                        f"{pins} reaches {nll_ref!r} at {want}"))
+        for j in range(len(base)):
+            if j not in pins and got[j] == start[j] and want[j] != start[j]:
+                bad.append((_sig(name + ".fit", "free_estimated", method="mle"),
+                            f"scipy slot {j} = {got[j]!r} unchanged by the fit (fixed {[params[q] for q in F]}), "
+                            f"scipy's own fit moves it to {want[j]!r}"))
     for p, pn in enumerate(params):
         v = after[pn]
         if p in F:
@@ -313,26 +348,11 @@ def check_fit(case):
         else:
             if not np.isfinite(float(v)):
                 bad.append((_sig(name + ".fit", "free_finite", method=case.get("method", "mle")), f"{pn} = {v!r} after fit"))
-            elif float(v) == float(before[pn]) and case["data"] != "own":
-                info["free_not_moved"] = pn  # optimiser stuck at its start (e.g. start outside the support): scipy's
-            elif float(v) == float(before[pn]):
+            elif float(v) == float(before[pn]) and ref is None:
                 bad.append((_sig(name + ".fit", "free_estimated", method=case.get("method", "mle")),
                             f"{pn} = {v!r} unchanged by the fit (fixed {[params[q] for q in F]})"))
-    # the estimate is the one *given* the fixed values: same scipy fit with exactly the slots pinned that the
-    # parameter map assigns to the fixed parameters (same starts as the code used)
-    ref = reference_fit(case, x, before)
-    if ref is not None:
-        dist, want = ref
-        base = base_slots(name)
-        env = {("arg", p): float(after[pn]) for p, pn in enumerate(params)}
-        got = [sentinel.evaluate(e, env) for e in base]
-        if len(got) < len(want):  # slots the family does not pass: scipy's defaults loc = 0, scale = 1
-            got += [0.0, 1.0][len(got) - len(want):]
-        if len(got) != len(want) or any(abs(g - w) > 1e-7 * max(abs(g), abs(w), 1e-300) for g, w in zip(got, want)):
-            bad.append((_sig(name + ".fit", "estimate_given_fixed", method="mle"),
-                        f"fixed {[params[q] for q in F]}={[farg[q] for q in F]}: scipy slots after the fit {got} but "
-                        f"scipy.stats.{dist}.fit with those slots pinned gives {want}"))
-        info["reference"] = True
+            elif float(v) == float(before[pn]):
+                info["free_not_moved"] = pn  # stuck at its start also in scipy's own pinned fit: the optimiser's
     # evaluation after the fit uses the fixed value
     with np.errstate(all="ignore"):
         xs = np.quantile(x, [0.2, 0.5, 0.8])
@@ -347,7 +367,7 @@ def check_fit(case):
 
 
 def fit_cases(rng, thorough):
-    n_sets = 6 if thorough else 1
+    n_sets = 20 if thorough else 1
     for name, _, params in TABLES["families"]:
         k = len(params)
         subs = [F for F in sentinel.subsets(k) if 0 < len(F) < k]
